@@ -4,6 +4,7 @@ import (
 	"fmt"
 	"go/constant"
 	"go/types"
+	"os"
 	"strings"
 
 	"golang.org/x/tools/go/ssa"
@@ -63,7 +64,9 @@ func ruleC13(c *Ctx) {
 			if ev.Kind == "return" && ev.Frame == fr && len(ev.Args) == 1 && ev.Args[0] != nil {
 				for _, lf := range sym.CasesUnder(guardLits(ev.Guard), ev.Args[0], 64) {
 					if lf.Val.Op == "tuple" && len(lf.Val.Args) == 2 {
-						out = append(out, ret{sym.And(lf.Conds...), lf.Val.Args[0], lf.Val.Args[1], ev.Mem})
+						// literals simplified against each other: values that come back from a helper as
+						// "ite(read failed, 0, value)" read as the value next to "the read succeeded"
+						out = append(out, ret{sym.And(normaliseLits(lf.Conds)...), lf.Val.Args[0], lf.Val.Args[1], ev.Mem})
 					}
 				}
 			}
@@ -135,7 +138,7 @@ func ruleC13(c *Ctx) {
 				// every accepting path implies validity; invalidity implies rejection
 				okAcc := len(accepted) > 0
 				for _, a := range accepted {
-					if !sym.CondsContradict([]*sym.Term{a, invalid}) {
+					if !sym.CondsContradict([]*sym.Term{a, simplifyUnder(invalid, guardLits(a))}) {
 						okAcc = false
 					}
 				}
@@ -143,7 +146,7 @@ func ruleC13(c *Ctx) {
 				// a valid box is not rejected by the validity test: all rejections with a valid box are the length check
 				okRej := true
 				for _, r := range rejected {
-					if !sym.CondsContradict([]*sym.Term{r, invalid}) {
+					if !sym.CondsContradict([]*sym.Term{r, simplifyUnder(invalid, guardLits(r))}) {
 						continue // rejects (at least) invalid boxes
 					}
 					// rejects valid boxes: must be the framing test
@@ -289,6 +292,9 @@ func ruleC13(c *Ctx) {
 			for _, r := range returnsOf(in, fr) {
 				if r.err.IsNil() {
 					detail = "accepting return under " + shortKey(r.guard)
+					if os.Getenv("IVGSA_DEBUG") != "" {
+						fmt.Fprintln(os.Stderr, "ACCEPT", r.guard.Key())
+					}
 				}
 				if !r.err.IsNil() {
 					if !isDecodeErr(r.err) {
@@ -304,16 +310,20 @@ func ruleC13(c *Ctx) {
 					}
 					// simplify the literal under the other literals of the guard (successful reads: n != 0)
 					l := l0
+					var others []*sym.Term
 					for lj, o := range lits {
 						if lj == li {
 							continue
 						}
+						others = append(others, o)
 						if o.Op == "not" {
 							l = sym.Assume(l, o.Args[0], false)
 						} else {
 							l = sym.Assume(l, o, true)
 						}
 					}
+					// conditions of joins inherited from a helper's several returns follow from the guard as a whole
+					l = simplifyUnder(l, others)
 					if l.Op != "bin" || l.Name != "==" {
 						continue
 					}
